@@ -16,7 +16,11 @@ SCALES = [1e-8, 1e-6, 2.0 ** -24, 1e-4, 1.0 / 256, 1.0 / 128, 0.05, 0.5, 1.0, 2.
 KINDS = ["LOGISTIC", "TANH", "SOFTMAX", "EXP", "LOG", "SQRT", "RSQRT", "HARD_SWISH", "LEAKY_RELU", "PRELU", "GELU",
          "QUANTIZE", "ADD", "SUB", "MUL", "AVERAGE_POOL_2D", "MAX_POOL_2D", "MEAN", "CONV_2D", "DEPTHWISE_CONV_2D",
          "FULLY_CONNECTED", "RELU", "RELU6", "RELU_N1_TO_1", "CONCATENATION", "RESIZE_BILINEAR", "MINIMUM", "ABS",
-         "SQUARED_DIFFERENCE", "LOGISTIC", "TANH", "SOFTMAX", "LEAKY_RELU", "HARD_SWISH"]
+         "SQUARED_DIFFERENCE", "LOGISTIC", "TANH", "SOFTMAX", "LEAKY_RELU", "HARD_SWISH", "LOGISTIC", "TANH", "SOFTMAX", "LOGISTIC", "EXP"]
+# table-lookup kinds evaluate a real function over the whole dequantised input range: half of their inputs get a scale
+# large enough that the range leaves the function's safe domain (|x| > 710 overflows exp, x <= 0 leaves log / sqrt)
+LUT_KINDS = ("LOGISTIC", "TANH", "SOFTMAX", "EXP", "LOG", "SQRT", "RSQRT", "HARD_SWISH", "GELU", "LEAKY_RELU", "PRELU")
+WIDE_SCALES = [3.0, 4.0, 5.6, 6.0, 8.0, 16.0, 100.0, 1e3, 2.8, 2.0]
 
 
 def _zp(rng, dtype):
@@ -38,6 +42,8 @@ def act_extremes_net(rng, idx=0, kind=None):
     rank4 = kind in ("AVERAGE_POOL_2D", "MAX_POOL_2D", "MEAN", "CONV_2D", "DEPTHWISE_CONV_2D", "RESIZE_BILINEAR", "PRELU") or rng.random() < 0.7
     shape = [1, rng.randint(1, 6), rng.randint(1, 6), rng.choice([1, 4, 8, 16])] if rank4 else rng.choice([[13], [2, 8], [1, 5, 7]])
     si, zi = _scale(rng), _zp(rng, dtype)
+    if kind in LUT_KINDS and rng.random() < 0.5:
+        si = float(rng.choice(WIDE_SCALES))
     x = b.input(shape, scale=si, zp=zi)
     b.net.desc.append(f"act_extremes kind={kind} dtype={dtype} in={shape} scale={si!r} zp={zi}")
     cur = x
